@@ -145,7 +145,7 @@ def boundary_offsets(n, b):
 
 def gen_lengths(rng, b, small):
     cands = {0, 1, 2}
-    for v in (b["min_prefix"], b["max_prefix"], b["buf"], 2 * b["buf"], b["suffix_threshold"],
+    for v in (b["min_prefix"], b["max_prefix"], b["buf"], 2 * b["buf"], b["suffix_threshold"], b["suffix"],
               b["suffix_threshold"] + b["suffix"], 3 * b["buf"]):
         for d in (-1, 0, 1, 7):
             if v + d >= 0:
@@ -197,6 +197,25 @@ def gen_world(rng, cfg, *, nroots=1, hostile=True, links=True, max_files=24, fam
                 w.add_file(p, {"fam": fam, "len": n, "flips": flips}, mt=mt)
                 regular.append(p)
                 count += 1
+    if hostile:
+        # confusable siblings: a name that differs from another one only by surrounding whitespace
+        # (unique content), so that a trimmed or mangled path names a *different existing* file
+        ws = b" \t\n\r"
+        extra = []
+        for p in list(regular):
+            pb = s2b(p)
+            d, nm = os.path.split(pb)
+            st = nm.strip(ws)
+            if st and st != nm and rng.random() < 0.7:
+                q = d + b"/" + st
+                if q not in names.used and b2s(q) not in regular:
+                    names.used.add(q)
+                    ln = [e["c"]["len"] for e in w.entries if e["t"] == "f" and e["p"] == p][0]
+                    if rng.random() < 0.3:
+                        ln = rng.choice(lengths) or 3
+                    w.add_file(b2s(q), {"fam": 900 + len(extra), "len": ln, "flips": []},
+                               mt=T0_NS - rng.randint(1, 10**6) * 10**9)
+                    extra.append(b2s(q))
     if links and regular:
         for _ in range(rng.choice([0, 0, 1, 2])):
             tgt = rng.choice(regular)
